@@ -79,7 +79,7 @@ def build(v, sid):
     pkgs.append({"path": "m/e", "name": "e", "files": [{"name": "e/e.go", "src": "package e\n\n// PT0 is restricted to its package.\n// @packageonly\ntype PT0 struct{ X int }\n"}]})
     ls = ["package u", "", "import ("] + (['\t"unsafe"', ""] if v.get("unsafe") else []) + ['\t"m/d"', '\t"m/e"', ")", ""] + \
          (["var _ = unsafe.Sizeof(0)", ""] if v.get("unsafe") else []) + ["// UT is u's own immutable type.", "// @immutable", "type UT struct{ X int }", "",
-          "// Get hands out a d.T.", "func Get() *d.T { return d.NewT() }", "", "// A3u claims an interface it does not implement.", "// @implements d.I",
+          "// Get hands out a d.T.", "func Get() *d.T { return d.NewT() }", "", "// RT re-exports d's type under a name of u.", "type RT = d.T", "", "// A3u claims an interface it does not implement.", "// @implements d.I",
           "type A3u struct{}"]
     expect.add(("u/a.go", len(ls), "IMPL03"))
     ls += ["", "func use(p *d.T, s d.S, sp *d.S, ut *UT) {"]
@@ -111,6 +111,13 @@ def build(v, sid):
         expect.add(("w/a.go", len(ls), "IMM01"))
     ls.append("\tut.X = 2099")
     expect.add(("w/a.go", len(ls), "IMM01"))
+    # d's type named through u's exported alias: still d's type, and still visible only when w imports d directly
+    ls.append("\tvar rt u.RT")
+    if diamond:
+        expect.add(("w/a.go", len(ls), "CTOR03"))
+    ls.append("\trt.X = 2097")
+    if diamond:
+        expect.add(("w/a.go", len(ls), "IMM01"))
     ls += ["}", ""]
     pkgs.append({"path": "m/w", "name": "w", "files": [{"name": "w/a.go", "src": "\n".join(ls) + "\n"}]})
     return {"id": sid, "pkgs": pkgs}, expect
